@@ -69,7 +69,23 @@ pub fn suite_c16(ctx: &mut Ctx) {
         for (op, ar, sps) in OPS {
             let mut inputs: Vec<Vec<u64>> = Vec::new();
             match ar {
-                1 => for &a in &hs { inputs.push(vec![a]); },
+                1 => {
+                    for &a in &hs { inputs.push(vec![a]); }
+                    // every (regime, exponent) with an empty and a full fraction, both signs: the branch thresholds of the
+                    // hand-written unary kernels sit on such patterns
+                    if ty.n > 8 {
+                        let kmax = ty.n as i32 - 2;
+                        for k in -kmax..=kmax {
+                            for e in 0..(1u32 << ty.es) {
+                                for f in [0u64, u64::MAX] {
+                                    let p = gen::compose(ty.n, ty.es, k, e, f);
+                                    inputs.push(vec![p]);
+                                    inputs.push(vec![gen::neg(ty.n, p)]);
+                                }
+                            }
+                        }
+                    }
+                }
                 2 => for &a in hs.iter().step_by(2) { for &b in hs.iter().step_by(3) { inputs.push(vec![a, b]); } },
                 _ => for &a in hs.iter().step_by(5) { for &b in hs.iter().step_by(6) { for &c in hs.iter().step_by(7) { inputs.push(vec![a, b, c]); } } },
             }
